@@ -23,6 +23,26 @@ CHECKS = {
    note="Trusted: Coq kernel, model faithfulness (sampled), harness. Concurrent match-while-update is not modelled (sequential histories only).",
    technique="Coq proof: refinement of the trie to a topic multiset (induction over topic bytes and op histories); differential correspondence + real PUB/SUB scenarios",
    design="6/C12"),
+ "C06": dict(
+   text="Coq proof over the engine model, for every configuration with a mechanism enabled and EVERY input history (no grammar, no depth bound): if HandshakeComplete or DeliverMessage is ever emitted then ZMTP/3 was negotiated and a non-NULL mechanism completed (gating invariant by induction over micro-steps); a ZMTP/2.0 greeting is refused when a mechanism is configured; for PLAIN, authentication is reached only by a step decoding HELLO(u,p) with the configured credentials. Tie: attacker streams from the property's grammar against real engines configured with PLAIN/CURVE/NOISE_XX (either role) and raw attackers against a real PLAIN listener on both backends.",
+   note="Trusted: as C04. CURVE/NOISE_XX are opaque in the model (an attacker without keys cannot complete them: mech_sound); for those configurations only the security-relevant summary of the real engine's behaviour is compared. Cryptographic soundness of dryoc/snow is not claimed.",
+   technique="Coq proof: inductive security invariant over all engine micro-steps and input histories; attacker-grammar differential correspondence",
+   design="6/C06"),
+ "C11": dict(
+   text="Coq proofs: RouterMap invariant and true-peer lookup for every attach/identity/detach/reconnect history with pairwise-distinct identities, exact characterisation under collisions (with refuted witness), envelope round trips DEALER/REQ/REP/ROUTER for every payload shape incl. empty frames, ROUTER_MANDATORY decision theorem, identity-gate labelling. Tie: op histories on the real RouterMap, real strategies/framing functions, and real ROUTER/DEALER/REQ sockets over inproc and tcp.",
+   note="Trusted: as C03 plus HashMap iteration order as an oracle input. Per-pipe send permit and event-bus ordering are exercised, not proved. Four genuine defects recorded as known findings (collision detach, part-wise send to unknown identity x2, part-wise send to REQ).",
+   technique="Coq proof: map invariants by induction over op histories, envelope algebra; differential correspondence + real-socket scenarios",
+   design="6/C11"),
+ "C13": dict(
+   text="Coq proofs for every add/remove/send history and every readiness oracle: cursor invariant, NoDup peers, exact round-robin cycle, removal keeps the turn order, routing hands a message to exactly one peer or returns it, full peers are skipped, no starvation bound n (tight), DEALER send answer soundness, and wait_for_connection has no lost wake-up on any schedule (with the pinned commit's order kept as refuted witness). Tie: histories with scripted peer readiness and membership changes injected during send calls on the real LoadBalancer/OutgoingMessageOrchestrator, the wait race replayed through a schedule point (single- and multi-thread), real DEALER/ROUTER probe.",
+   note="Trusted: as C03; peer readiness is an oracle; tokio Notify semantics (notify_waiters wakes exactly the existing Notified futures) is an assumption taken from the tokio docs. Two genuine defects were found and repaired by fix: commits.",
+   technique="Coq proof: invariants and exact rotation arithmetic by induction over histories; small-step interleaving model of the Notify race; schedule-point correspondence",
+   design="6/C13"),
+ "C17": dict(
+   text="Coq proofs: full arithmetic of the reconnect back-off for all (base, max, attempts) incl. u32/Duration saturation (first delay, at most geometric growth, monotone, capped by max, success resets, no wrap), and fault isolation over a transition model of the socket core's event handling (any sequence of connection faults keeps the socket Running and other endpoints untouched; retries scheduled with exactly the back-off delay), with refuted witnesses where the code shuts the whole socket down. Tie: histories on the real ReconnectState; 15 stack scenarios injecting faults next to a healthy connection; measured reconnect pacing.",
+   note="Trusted: as C03; the Err-to-loop decision table of the core was transcribed by reading the code; Instant::now() cannot be injected. Three genuine defects recorded as known findings (reconnect race, event-bus lag x2), one repaired (inproc refusal shut the binder down).",
+   technique="Coq proof: saturating arithmetic lemmas (lia/nia) + invariants over the event-handling transition system; differential + fault-injection scenarios",
+   design="6/C17"),
 }
 NOT_APPLICABLE = {}
 
